@@ -1,11 +1,11 @@
 package sim
 
 import (
-	"strings"
 	"fmt"
 	"math/rand"
 	"os"
 	"runtime/debug"
+	"strings"
 	"testing"
 	"time"
 
